@@ -110,6 +110,12 @@ def session_run(ctx):
         sess = sess + [dict(c, adapter="direct") for c in sess if not c.get("slow")][::2]
     else:
         sess = sess + [dict(c, adapter="direct") for c in sess if not c.get("slow")][::7]
+    # the same calls over a socket that refuses the first send attempt(s) or accepts only part of a write, on the frontend's
+    # side and on the server's side: transient faults of the transport must not change what reaches the handler / the caller
+    base = [c for c in sess if not c.get("slow") and not c.get("adapter")]
+    stride = 5 if ctx.tier == "quick" else 2
+    for j, (script, side) in enumerate((([0], "fe"), ([1], "fe"), ([0, 0, 13], "fe"), ([0], "be"), ([5, 0, 8], "be"))):
+        sess = sess + [dict(c, sendfault=script, faultside=side) for c in base[j::stride * 5]]
     sess = replay_or(ctx, "session", sess)
     tr = ctx.harness("session", sess, shards=12)
     viol = ctx.tlc_tv("TV_Session", tr, "session")
@@ -777,11 +783,18 @@ def run_C10(ctx):
                 cases.append(dict(ep=ep, kinds=k, sched=s_["sched"]))
     if ctx.tier == "quick" and len(cases) > 1500:
         cases = cases[::len(cases) // 1500 + 1]
+    # which operation stands for a kind rotates within every (endpoint, kinds) group, so that each public operation of each
+    # proxy is the one running beside another caller's transaction in several schedules
+    grp = {}
+    for c in cases:
+        k = (c["ep"], tuple(c["kinds"]))
+        c["var"] = grp.get(k, 0)
+        grp[k] = c["var"] + 1
     # uncontrolled multi-thread stress (hooks only record)
     for ep, ks in (("fe", ["reply"] * 4), ("fe", ["reply", "ack", "reply", "ack", "ack", "reply"]), ("fe", ["reply", "ff", "ff", "reply"]),
                    ("be", ["ack"] * 8), ("be", ["ff"] * 4), ("gpu", ["reply", "ff", "ack", "reply", "ff", "reply", "ack", "ff"])):
         for r in range(3 if ctx.tier == "quick" else 20):
-            cases.append(dict(ep=ep, kinds=ks, sched=[], free=True, n=150 if ctx.tier == "quick" else 1000))
+            cases.append(dict(ep=ep, kinds=ks, sched=[], free=True, var=r, n=150 if ctx.tier == "quick" else 1000))
     cases = replay_or(ctx, "txn", cases)
     tr = ctx.harness("txn", cases, shards=8)
     viol = ctx.tlc_tv("TV_Txn", tr, "txn", chunk_events=8000)
@@ -1399,3 +1412,17 @@ def run_X04(ctx):
         "Listener / BackendListener objects; TLC compares every result, what is at the path afterwards, which pending connection an accept "
         "yields (FIFO), that the request server obtained from BackendListener serves that connection, and the descriptor balance at teardown",
         ASSUME_COMMON, viol)
+
+
+def run_X05(ctx):
+    """Classification of socket faults and the reconnect advice (FaultClass.tla)."""
+    cases = ctx.tlc_mc("MC_FaultClass", "MC_FaultClass")
+    cases = replay_or(ctx, "errs", cases)
+    tr = ctx.harness("errs", cases)
+    viol = ctx.tlc_tv("TV_FaultClass", tr, "errs", reset_ev="class")
+    ctx.count_distinct(tr, lambda e: (e.get("t"), e.get("kind"), e.get("reconnect")), lambda e: True)
+    ctx.exhaustive = True
+    return ctx.finish("exploration",
+        "FaultClass.tla: the errno table (0..140) -> error kind, the reconnect advice of every error kind, and the kind reported by a real "
+        "Frontend / BackendReqHandler for an end of stream after k bytes of the awaited message, a reset and a peer that was gone before the "
+        "request; TLC compares kind, carried errno and advice", ASSUME_COMMON, viol)
